@@ -151,6 +151,11 @@ var Features = []Feature{
 		t := d.Table("t")
 		t.Cols = append(t.Cols[:1:1], append([]Col{{Name: "m", Type: "integer", Gen: "id + 2"}}, t.Cols[1:]...)...)
 	}},
+	// two generated columns, the later one's name being a prefix of the earlier one's.
+	{Name: "col_gen_name_prefix", Apply: func(d *DB) {
+		t := d.Table("t")
+		t.Cols = append(t.Cols, Col{Name: "hx2", Type: "integer", Gen: "id + 7"}, Col{Name: "hx", Type: "integer", Gen: "id + 9"})
+	}},
 	{Name: "a_type_text", Group: "a", Apply: func(d *DB) { d.Table("t").Col("a").Type = "text" }},
 	{Name: "a_notnull", Group: "a", Apply: func(d *DB) { d.Table("t").Col("a").NotNull = true }},
 	{Name: "a_notnull_default", Group: "a", Apply: func(d *DB) { c := d.Table("t").Col("a"); c.NotNull = true; c.Default = "7" }},
